@@ -88,11 +88,14 @@ pub fn run_sched_late(st: &Setup, sched: &Sched, r: &mut Rng, limit: usize, late
                         pred_display: st.ds.clone().unwrap_or_default(), pred_queue: input, accesses: 0, halted: false, error: None };
     let mut stale = t.run.m.sim.mem[KBDR].get();
     let (mut kb_ready, mut ds_ready) = (false, false);
+    // whether the last status read happened under the device's lock (then the implementation must have said "not ready";
+    // a ready answer under the lock is not the known class: the class is a lock taken AFTER a free, ready status read)
+    let (mut kb_stat_locked, mut ds_stat_locked) = (false, false);
     let mut used = 0usize;
     let mut pending_in: Option<u16> = None; // user-level GETC/IN in flight: return address
     let mut pending_in_is_in = false;
     for n in 0..limit {
-        for (at, b) in late { if *at == n { if let Some(q) = &t.run.m.kb { q.write().unwrap().push_back(*b); } t.pred_queue.push(*b); } }
+        for (at, b) in late { if *at == n { if let Some(q) = &t.run.m.kb { q.write().unwrap_or_else(|e| e.into_inner()).push_back(*b); } t.pred_queue.push(*b); } }
         let m = &t.run.m;
         let pc = m.sim.pc;
         let w = m.sim.mem[pc].get();
@@ -128,7 +131,7 @@ pub fn run_sched_late(st: &Setup, sched: &Sched, r: &mut Rng, limit: usize, late
             match (a, store) {
                 (KBDR, false) => {
                     if kbl {
-                        if kb_ready { t.in_class = true; t.class_what = format!("keyboard lock held at step {n} during the KBDR read after a ready KBSR"); }
+                        if kb_ready && !kb_stat_locked { t.in_class = true; t.class_what = format!("keyboard lock held at step {n} during the KBDR read after a ready KBSR"); }
                         t.pred_received.push(stale);
                     } else if !t.pred_queue.is_empty() {
                         stale = t.pred_queue.remove(0) as u16;
@@ -136,7 +139,7 @@ pub fn run_sched_late(st: &Setup, sched: &Sched, r: &mut Rng, limit: usize, late
                     } else { t.pred_received.push(stale); }
                 }
                 (DDR, true) => {
-                    if dsl { if ds_ready { t.in_class = true; t.class_what = format!("display lock held at step {n} during the DDR write after a ready DSR"); } }
+                    if dsl { if ds_ready && !ds_stat_locked { t.in_class = true; t.class_what = format!("display lock held at step {n} during the DDR write after a ready DSR"); } }
                     else { t.pred_display.push(reg_w(&t.run.m, ((w >> 9) & 7) as u8).0 as u8); }
                 }
                 _ => {}
@@ -147,8 +150,8 @@ pub fn run_sched_late(st: &Setup, sched: &Sched, r: &mut Rng, limit: usize, late
         // status reads: remember whether they reported ready
         if let Some((a, false)) = acc {
             let dr = ((w >> 9) & 7) as u8;
-            if a == KBSR { kb_ready = reg_w(&t.run.m, dr).0 & 0x8000 != 0; }
-            if a == DSR { ds_ready = reg_w(&t.run.m, dr).0 & 0x8000 != 0; }
+            if a == KBSR { kb_ready = reg_w(&t.run.m, dr).0 & 0x8000 != 0; kb_stat_locked = kbl; }
+            if a == DSR { ds_ready = reg_w(&t.run.m, dr).0 & 0x8000 != 0; ds_stat_locked = dsl; }
         }
         if let Some((KBDR, false)) = acc { kb_ready = false; }
         if let Some((DDR, true)) = acc { ds_ready = false; }
@@ -329,6 +332,49 @@ pub fn run(ctx: &Ctx, _replay: Option<&str>) {
             }
         }
         ctx.stat("late_input_jobs", 1);
+    });
+    // ---- the other ways a front end can be "in the way": a SHARED (read) guard held by another thread — `try_write`
+    // fails exactly as under an exclusive guard, so every expectation is the same — and a POISONED lock (a thread
+    // panicked while holding the write guard) — the devices recover the guard, so the run must be the free run.
+    // Every single boundary (3 kinds) of the short echo programs under shared guards; free, single-boundary and
+    // random schedules on poisoned buffers.
+    let alt_jobs: Vec<(Prog, u8)> = Prog::ALL.iter().filter(|p| **p != Prog::InOnly || !q).flat_map(|p| [1u8, 2].into_iter().map(move |m| (*p, m))).collect();
+    par_for(alt_jobs.len(), |u| {
+        let (p, mode) = alt_jobs[u];
+        let input = [0x61u8, 0x62];
+        let ds0 = [0x2Au8];
+        let st = setup_for(p, &input, &ds0, u % 2 == 0, false);
+        if mode == 1 { crate::simwire::LOCK_KIND.with(|c| c.set(1)); } else { crate::simwire::POISON.with(|c| c.set(true)); }
+        let name = if mode == 1 { "shared guards" } else { "poisoned locks" };
+        let free = run_sched(&st, &Sched::Fixed(&[]), &mut Rng::new(0), 4000);
+        judge_opt(ctx, u, &tally, p, &input, &ds0, &free, &format!("{name}, all free"), false);
+        let step = if mode == 1 || !q { 1 } else { 3 };
+        for a in (0..free.run.steps() + 6).step_by(step) {
+            for ka in [(true, false), (false, true), (true, true)] {
+                let mut v = vec![(false, false); a + 1];
+                v[a] = ka;
+                let t = run_sched(&st, &Sched::Fixed(&v), &mut Rng::new(0), 4000);
+                judge_opt(ctx, u, &tally, p, &input, &ds0, &t, &format!("{name}, boundary {a}:{ka:?}"), false);
+            }
+        }
+        // a guard held over a whole poll iteration and the data access that follows a ready status (3 and 4 boundaries)
+        for a in 0..free.run.steps() {
+            for len in [3usize, 4] {
+                for ka in [(true, false), (false, true)] {
+                    let mut v = vec![(false, false); a + len];
+                    for x in a..a + len { v[x] = ka; }
+                    let t = run_sched(&st, &Sched::Fixed(&v), &mut Rng::new(0), 4000);
+                    judge_opt(ctx, u, &tally, p, &input, &ds0, &t, &format!("{name}, boundaries {a}..{}:{ka:?}", a + len), false);
+                }
+            }
+        }
+        let mut r = root.fork(0x5A000 + u as u64);
+        for _ in 0..ctx.n(6, 60) {
+            let t = run_sched(&st, &Sched::Random { num: 1, den: 4, budget: 40, avoid_data: true }, &mut r, 8000);
+            judge_opt(ctx, u, &tally, p, &input, &ds0, &t, &format!("{name}, random p=1/4 avoid_data=true"), false);
+        }
+        crate::simwire::LOCK_KIND.with(|c| c.set(0)); crate::simwire::POISON.with(|c| c.set(false));
+        ctx.stat(if mode == 1 { "shared_guard_jobs" } else { "poisoned_lock_jobs" }, 1);
     });
     // random locks with random typing times on longer inputs
     par_for(ctx.n(120, 3000) as usize, |k| {
